@@ -147,6 +147,66 @@ GROUPS = {
                 (r"result\.checked_add\(n\)\.unwrap\(\)\s*\}\s*$", "let r = checked_add(result, n); r }")],
          effects={"checked_add": ("KOps.checkedAddMax {self.cmax} {0} {1}", "N", None)}),
  ],
+ "k_cuckoo_ops": [
+    dict(file="src/filters/cuckoofilter.rs", fn="write_to_bucket", lean="cuckoo_write_to_bucket", mode="flow",
+         self=[("bucketsize", "N")], self_mut=[("table", "L(N)")], param_types={"log": "L(T(N,N))"}, mut_params=["log"], returns="B",
+         subst=[(r"if self\.table\.get\(x as u64\) == 0 \{", "let cur = self.table[x]; if cur == 0 {"),
+                (r"self\.table\.set\(x as u64, f\);", "self.table[x] = f;")]),
+    dict(file="src/filters/cuckoofilter.rs", fn="has_in_bucket", lean="cuckoo_has_in_bucket", mode="flow",
+         self=[("bucketsize", "N"), ("table", "L(N)")], self_mut=[], returns="B",
+         subst=[(r"if self\.table\.get\(x as u64\) == f \{", "let cur = self.table[x]; if cur == f {")]),
+    dict(file="src/filters/cuckoofilter.rs", fn="remove_from_bucket", lean="cuckoo_remove_from_bucket", mode="flow",
+         self=[("bucketsize", "N")], self_mut=[("table", "L(N)")], returns="B",
+         subst=[(r"if self\.table\.get\(x as u64\) == f \{", "let cur = self.table[x]; if cur == f {"),
+                (r"self\.table\.set\(x as u64, 0\);", "self.table[x] = 0;")]),
+    dict(file="src/filters/cuckoofilter.rs", fn="delete", lean="cuckoo_delete", mode="flow",
+         self=[("bucketsize", "N")], self_mut=[("table", "L(N)"), ("n_elements", "N")], extra=[("f", "N"), ("i1", "N"), ("i2", "N")],
+         drop=["t"], returns="B",
+         subst=[(r"let \(f, i1, i2\) = self\.start\(t\);", ""),
+                (r"if self\.remove_from_bucket\(i1, f\) \{", "let r1 = call_remove(i1, f); if r1 {"),
+                (r"if self\.remove_from_bucket\(i2, f\) \{", "let r2 = call_remove(i2, f); if r2 {")],
+         effects={"call_remove": ("cuckoo_remove_from_bucket {self.bucketsize} {self.table} {0} {1}", "B", ["self.table"], "flowcall")}),
+    dict(file="src/filters/cuckoofilter.rs", impl=r"impl<T, R, B> Filter<T> for CuckooFilter<T, R, B>", fn="query", lean="cuckoo_query", mode="flow",
+         self=[("bucketsize", "N"), ("table", "L(N)")], self_mut=[], extra=[("f", "N"), ("i1", "N"), ("i2", "N")], drop=["obj"], returns="B",
+         subst=[(r"let \(f, i1, i2\) = self\.start\(obj\);", ""),
+                (r"if self\.has_in_bucket\(i1, f\) \{", "let r1 = call_has(i1, f); if r1 {"),
+                (r"if self\.has_in_bucket\(i2, f\) \{", "let r2 = call_has(i2, f); if r2 {")],
+         effects={"call_has": ("cuckoo_has_in_bucket {self.bucketsize} {self.table} {0} {1}", "B", [], "flowcall0")}),
+    dict(file="src/filters/cuckoofilter.rs", fn="insert_internal", lean="cuckoo_insert_internal", mode="flow",
+         generic=[("R", "Type"), ("I", "Pds.Cuckoo.RngI R"), ("bh", "Nat → Nat")],
+         self=[("bucketsize", "N")], self_mut=[("table", "L(N)"), ("n_elements", "N"), ("rng", "R")],
+         param_types={"log": "L(T(N,N))"}, mut_params=["log"], mut_locals=["f"], extra=[("max_num_kicks", "N")], returns="B",
+         subst=[(r"if self\.write_to_bucket\(i1, f, log\) \{", "let w1 = call_write(i1, f); if w1 {"),
+                (r"if self\.write_to_bucket\(i2, f, log\) \{", "let w2 = call_write(i2, f); if w2 {"),
+                (r"if self\.write_to_bucket\(i, f, log\) \{", "let w3 = call_write(i, f); if w3 {"),
+                (r"let mut i = if self\.rng\.gen::<bool>\(\) \{ i1 \} else \{ i2 \};", "let c = rng_bool(); let mut i = if c { i1 } else { i2 };"),
+                (r"let e: usize = self\.rng\.gen_range\(0\.\.self\.bucketsize\);", "let e = rng_below(self.bucketsize);"),
+                (r"let tmp = self\.table\.get\(x as u64\);", "let tmp = self.table[x];"),
+                (r"self\.table\.set\(x as u64, f\);", "self.table[x] = f;"),
+                (r"i \^= self\.hash\(&f\);", "i = i ^ bucket_hash(f);"),
+                (r"0\.\.MAX_NUM_KICKS", "0..max_num_kicks"),
+                (r"return Ok\(true\);", "return true;", 3),
+                (r"Err\(CuckooFilterFull\)", "false")],
+         calls={"bucket_hash": ("bh {0}", "N")},
+         effects={"call_write": ("cuckoo_write_to_bucket {self.bucketsize} {self.table} {0} {1} log", "B", ["self.table", "log"], "flowcall"),
+                  "rng_bool": ("I.bool {self.rng}", "B", "self.rng"),
+                  "rng_below": ("I.below {0} {self.rng}", "N", "self.rng")}),
+    dict(file="src/filters/cuckoofilter.rs", fn="restore_state", lean="cuckoo_restore_state", mode="flow",
+         self=[], self_mut=[("table", "L(N)")], param_types={"log": "L(T(N,N))"}, returns="self",
+         subst=[(r"self\.table\.set\(pos as u64, data\);", "self.table[pos] = data;")]),
+    dict(file="src/filters/cuckoofilter.rs", impl=r"impl<T, R, B> Filter<T> for CuckooFilter<T, R, B>", fn="insert", lean="cuckoo_insert", mode="flow",
+         generic=[("R", "Type"), ("I", "Pds.Cuckoo.RngI R"), ("bh", "Nat → Nat")],
+         self=[("bucketsize", "N")], self_mut=[("table", "L(N)"), ("n_elements", "N"), ("rng", "R")],
+         extra=[("f", "N"), ("i1", "N"), ("i2", "N"), ("max_num_kicks", "N")], drop=["obj"], returns="B",
+         vec_types={"log": "L(T(N,N))"},
+         subst=[(r"let \(f, i1, i2\) = self\.start\(obj\);", ""),
+                (r"let mut log: Vec<\(usize, u64\)> = vec!\[\];", "let mut log = vec![];"),
+                (r"let result = self\.insert_internal\(f, i1, i2, &mut log\);", "let result = call_insert_internal(f, i1, i2);"),
+                (r"if result\.is_err\(\) \{\s*self\.restore_state\(&log\);\s*\}", "if !result { let u = call_restore(); }")],
+         effects={"call_insert_internal": ("cuckoo_insert_internal R I bh {self.bucketsize} {self.table} {self.n_elements} {self.rng} {0} {1} {2} log max_num_kicks", "B",
+                                           ["self.table", "self.n_elements", "self.rng", "log"], "flowcall"),
+                  "call_restore": ("cuckoo_restore_state {self.table} log", "U", ["self.table"], "flowcont")}),
+ ],
 }
 STRUCTS = {
     "Centroid": {"lean": "Pds.TDigest.Centroid α", "fields": [("sum", "F"), ("count", "F")]},
@@ -156,7 +216,7 @@ STRUCTS = {
 MODULE = {"k_td_core": "TdCore", "k_td_scale": "TdScale", "k_sizing_bloom": "SizingBloom", "k_sizing_cms": "SizingCms",
           "k_sizing_lossy": "SizingLossy", "k_sizing_cuckoo": "SizingCuckoo", "k_alloc": "Alloc", "k_hll_add": "HllAdd",
           "k_hll_err": "HllErr", "k_hashiter": "HashIter", "k_cuckoo": "Cuckoo", "k_quotient": "Quotient", "k_reservoir": "Reservoir",
-          "k_reservoir_add": "ReservoirAdd", "k_td_read": "TdRead", "k_td_merge": "TdMerge", "k_bloom_ops": "BloomOps", "k_cms_ops": "CmsOps"}
+          "k_reservoir_add": "ReservoirAdd", "k_td_read": "TdRead", "k_td_merge": "TdMerge", "k_bloom_ops": "BloomOps", "k_cms_ops": "CmsOps", "k_cuckoo_ops": "CuckooOps"}
 IMPORTS = {"k_td_read": ["TdCore"], "k_td_merge": ["TdCore"]}
 # hand-written modules a generated module needs (type definitions only)
-LEAN_IMPORTS = {"k_reservoir_add": ["Pds.Model.Reservoir"], "k_td_read": ["Pds.Model.TDigest"], "k_td_merge": ["Pds.Model.TDigest"]}
+LEAN_IMPORTS = {"k_cuckoo_ops": ["Pds.Model.Cuckoo"], "k_reservoir_add": ["Pds.Model.Reservoir"], "k_td_read": ["Pds.Model.TDigest"], "k_td_merge": ["Pds.Model.TDigest"]}
